@@ -75,6 +75,15 @@ Theorem xml_roundtrip_Change : forall v,
 Proof. exact roundtrip_Change. Qed.
 Print Assumptions xml_roundtrip_Change.
 
+(* --- the Diff container: actions written and read by Action.MarshalXML / Action.UnmarshalXML
+       (a create action holds one bare node, way or relation; modify / delete actions hold old and
+       new blocks with any objects and bounds) plus changesets --- *)
+Theorem xml_roundtrip_Diff : forall v,
+  wfb gen_schema "Diff" v = true ->
+  exists e, encode1 gen_schema "Diff" v = Ok e /\ decode gen_schema "Diff" e = Ok v /\ xname e = "osm".
+Proof. exact roundtrip_Diff. Qed.
+Print Assumptions xml_roundtrip_Diff.
+
 (* --- the marshalled text of every object is decodable by the streaming scanner with the same
        result (marshal_decodable_by_scanner, object level) --- *)
 Theorem marshal_decodable_by_scanner_object : forall T nm v,
@@ -133,9 +142,5 @@ Example ex_node_struct_hyps :
 Proof. vm_compute. reflexivity. Qed.
 
 (* STILL PARTIAL (stated, evaluated on every generated value by C04/Check.v, not proved):
-     xml_roundtrip_Diff : forall v, wfb gen_schema "Diff" v = true ->
-       exists e, encode1 gen_schema "Diff" v = Ok e /\ decode gen_schema "Diff" e = Ok v
-     (Action.MarshalXML / UnmarshalXML: one created element per action, old/new blocks = OSM blocks,
-      for which Codec.ProofsBlock.osm_block is available);
      marshal_decodable_by_scanner for the containers:
        fst (scan_el gen_schema e) = collect gen_schema FUEL (TNamed T) v  for T in OSM, Change, Diff. *)
